@@ -7,11 +7,12 @@ def counted_flag_rule(t, rid, descr, fn, counter_adt, counter, flags, idx_pat, f
     """COUNTED-FLAG: a counter of distinct indices. Every `counter += 1` is dominated by the false edge of a load `flags[idx]` and the same
     region sets `flags[idx] = true` for the same idx (so an index can never be counted twice)."""
     r = RuleResult(rid, descr, floor=floor)
-    guards = [br for br in t.branches(fn) if br["kind"] == "bool" and re.search(r"::index(_mut)?\(.*" + flags + r", " + idx_pat + r"\)$", fmt(br["raw"]))]
-    marks = [x for x in t.sites(fn) if x.node["k"] == "assign" and x.node["place"]["proj"] and re.search(r"::index_mut\(.*" + flags + r", " + idx_pat + r"\)$", fmt(t.place(x)))]
+    elem = r"(::index(_mut)?\(.*" + flags + r"\)*, " + idx_pat + r"\)|" + flags + r"\)*\[" + idx_pat + r"\])"      # `flags[idx]` through Index/IndexMut or as a place projection
+    guards = [br for br in t.branches(fn) if br["kind"] == "bool" and re.search(elem + r"$", fmt(br["raw"]))]
+    marks = [x for x in t.sites(fn) if x.node["k"] == "assign" and x.node["place"]["proj"] and re.search(elem + r"$", fmt(t.place(x)))]
     # test-and-set in one step: `if std::mem::replace(&mut flags[i], true) { return }` (the old value is tested, the flag is set)
-    tas = [br for br in t.branches(fn) if br["kind"] == "bool" and re.search(r"mem::replace\(&\*?.*::index_mut\(.*" + flags + r", " + idx_pat + r"\), 1\)$", fmt(br["raw"]))]
-    tas_calls = [c for c in t.calls(r"mem::replace$", fn) if re.search(r"::index_mut\(.*" + flags + r", " + idx_pat + r"\)$", fmt(t.arg(c, 0))) and const_eval(t.arg(c, 1)) == 1]
+    tas = [br for br in t.branches(fn) if br["kind"] == "bool" and re.search(r"mem::replace\(&\*?.*" + elem + r", 1\)$", fmt(br["raw"]))]
+    tas_calls = [c for c in t.calls(r"mem::replace$", fn) if re.search(elem + r"$", fmt(t.arg(c, 0))) and const_eval(t.arg(c, 1)) == 1]
     guards = guards + tas
     for s in t.stores_like(r"\." + counter + r"$", fn):
         r.site(s, fmt(t.stored(s))[-60:])
@@ -60,7 +61,7 @@ def seq_unique(t, rid):
             op = rv["fields"][names.index("sequence")]
             for _ in range(6):
                 if op["k"] not in ("copy", "move") or op["place"]["proj"]: break
-                ds = f.defs().get(op["place"]["local"], [])
+                ds = f.defs1(op["place"]["local"])
                 if len(ds) != 1 or ds[0][2]["k"] != "assign": break
                 bb_, k_, st_ = ds[0]
                 if st_["rv"]["k"] == "use" and st_["rv"]["op"]["k"] in ("copy", "move"):
@@ -346,4 +347,64 @@ def capacity_rule(t, rid):
         if not den and not rep: r.bad("cap-denied", None, "full server does not answer ConnectionDenied")
         grow = [g for g in t.effects("pending_clients", {"entry", "insert"}, h)]
         if any(not t.edge_dominates(h, other, g.bb) for g in grow): r.bad("cap-dom", None, "pending session created although the server is full")
+    return r
+
+
+def sent_record_rule(t, rid):
+    """every emitted packet is recorded in sent_packets under its own sequence with what it carries (C08.c, shared with C01.l)"""
+    gp = t.fn("RenetClient::get_packets_to_send")
+    r = RuleResult(rid, "every emitted packet is recorded under its own sequence with what it carries", floor=5)
+    ins = list(t.effects("sent_packets", {"insert"}, gp))
+    kinds = set()
+    WANT = {"SmallReliable": "ReliableMessages", "ReliableSlice": "ReliableSliceMessage", "Ack": "PacketSentInfo::Ack", "SmallUnreliable": "PacketSentInfo::None", "UnreliableSlice": "PacketSentInfo::None"}
+    def alts(o):
+        o = strip(o)
+        if isinstance(o, tuple) and o[0] == "phi": return [y for x in o[2] for y in alts(x)]
+        return [o]
+    for c in ins:
+        r.site(c)
+        key, rec = fmt(t.arg(c, 1)), t.arg(c, 2)
+        info = fmt(rec)
+        if "current_time" not in info: r.bad("time", c, "sent_at is not the current time")
+        ks = set(re.findall(r"as (SmallReliable|SmallUnreliable|ReliableSlice|UnreliableSlice|Ack)\.sequence", key))
+        whole = re.search(r"Packet::sequence\(&\*?(.*)\)$", key)
+        if not ks and not whole: r.bad("key", c, f"record key is not the packet's sequence: {key[:60]}"); continue
+        # what is recorded: one PacketSentInfo per alternative; an alternative that reads `<packet> as V.field` belongs to packets of kind V
+        rs = strip(rec)
+        infos = alts(rs[3][1]) if isinstance(rs, tuple) and rs[0] == "aggr" and len(rs[3]) >= 2 else [rs]
+        if whole:
+            # one insert for every kind, keyed by Packet::sequence(packet): the record must distinguish the kinds by itself
+            pk = whole.group(1)
+            have = {}
+            for a_ in infos:
+                ta = fmt(a_)
+                vs = set(re.findall(r"as (SmallReliable|SmallUnreliable|ReliableSlice|UnreliableSlice|Ack)\.", ta))
+                nm = a_[2] if isinstance(a_, tuple) and a_[0] == "aggr" else "?"
+                for v_ in (vs or {"*"}): have.setdefault(v_, []).append((nm, ta))
+                if vs and pk not in ta: r.bad("other-packet", c, "the record is built from a different packet than the one whose sequence is the key")
+            for kind in ("SmallReliable", "ReliableSlice", "Ack"):
+                got = have.get(kind, [])
+                if not got or any(WANT[kind].split("::")[-1] != nm for nm, _ in got): r.bad(f"info|{kind}", c, f"{kind} packets are not recorded as {WANT[kind]}"); continue
+                kinds.add(kind)
+                ta = got[0][1]
+                if kind == "ReliableSlice" and not (re.search(r"as ReliableSlice\.slice\.message_id", ta) and re.search(r"as ReliableSlice\.slice\.slice_index", ta)): r.bad("slice-info", c, "slice record does not carry the slice's own message id / index")
+                if kind == "SmallReliable" and "as SmallReliable.messages" not in ta: r.bad("ids-info", c, "message-id record not derived from the packet's messages")
+            if any(nm == "None" for nm, _ in have.get("*", [])): kinds.update({"SmallUnreliable", "UnreliableSlice"})
+            continue
+        for kind in ks:
+            kinds.add(kind)
+            want = WANT[kind]
+            if want.split("::")[-1] not in info: r.bad(f"info|{kind}", c, f"{kind} packet recorded as {info[:80]}")
+            if kind == "ReliableSlice" and not (re.search(r"as ReliableSlice\.slice\.message_id", info) and re.search(r"as ReliableSlice\.slice\.slice_index", info)): r.bad("slice-info", c, "slice record does not carry the slice's own message id / index")
+            if kind == "SmallReliable" and "as SmallReliable.messages" not in info and "collect" not in info: r.bad("ids-info", c, "message-id record not derived from the packet's messages")
+    # PROV: the ids remembered for a SmallReliable packet are a pure projection of the messages it carries (one id per carried message):
+    # no arithmetic on ids, no range spanned between two of them (a packet can carry non-contiguous ids when resend timers are staggered)
+    for a_ in t.aggrs("remote_connection::PacketSentInfo", "ReliableMessages"):
+        ids = t.field_of_aggr(a_, "message_ids")
+        if ids is None: continue
+        r.site(a_)
+        if contains(ids, lambda x: isinstance(x, tuple) and x and ((x[0] == "bin" and x[1].startswith(("Add", "Sub"))) or (x[0] == "aggr" and "Range" in str(x[1])))) or not contains(ids, lambda x: isinstance(x, tuple) and x and x[0] == "call" and method_of(x[1]) in ("collect", "map", "push", "extend", "from_iter", "to_vec", "clone", "iter", "into_iter", "unzip")):
+            r.bad(f"{a_.fn.path}|ids-not-a-projection", a_, f"the ids recorded for a SmallReliable packet are computed ({fmt(ids)[:70]}), not collected one by one from the messages the packet carries: an ack of the packet releases ids it never carried")
+    for k in ("SmallReliable", "SmallUnreliable", "ReliableSlice", "UnreliableSlice", "Ack"):
+        if k not in kinds: r.bad(f"missing|{k}", None, f"{k} packets are not recorded in sent_packets")
     return r
